@@ -323,7 +323,7 @@ impl Case {
         let usages = self.usages();
         let m = usages.len();
         let acts = self.all_acts();
-        n <= 7
+        n <= 256
             && self.k as u64 + n as u64 <= u32::MAX as u64
             && self.methods.iter().all(|m| (*m as usize) <= METHODS.len())
             && self.fail_answer.iter().all(|i| (*i as usize) < n)
@@ -707,6 +707,30 @@ pub fn held_long_cases(tier: Tier) -> Vec<Case> {
                         out.push(c);
                     }
                 }
+            }
+        }
+    }
+    out
+}
+
+/// many requests held behind ONE missing number (seeded change C10-9: a backlog capped at 64 entries lets go of
+/// the highest one): w requests with consecutive numbers arrive ahead of request 0 - ascending, descending or
+/// riffled (odd numbers, then even ones) - then request 0 fills the gap and all w+1 are due, in order. The
+/// statement knows no bound on how many requests wait; w sits around 64 and goes up to what `idx: u8` allows.
+pub fn wide_backlog_cases(tier: Tier) -> Vec<Case> {
+    let widths: &[u16] = tier.pick(&[63, 64, 65, 66, 100, 200][..], &[31, 32, 33, 63, 64, 65, 66, 100, 127, 128, 129, 200, 255][..]);
+    let mut out = vec![];
+    for role in [Role::Uas, Role::Uac] {
+        let k = if role == Role::Uas { 1 } else { 0 };
+        for (wi, w) in widths.iter().enumerate() {
+            let asc: Vec<u8> = (1..=*w).map(|i| i as u8).collect();
+            let desc: Vec<u8> = asc.iter().rev().copied().collect();
+            let riffle: Vec<u8> = asc.iter().copied().filter(|i| i % 2 == 1).chain(asc.iter().copied().filter(|i| i % 2 == 0)).collect();
+            for (oi, order) in [asc, desc, riffle].into_iter().enumerate() {
+                let mut p = order;
+                p.push(0);
+                // ordinal: even = taking usage alone, odd = with an observer in front
+                out.push(perm_case(role, k, &p, wi + oi));
             }
         }
     }
@@ -2336,7 +2360,7 @@ pub fn property() -> Property {
             "re-INVITEs and requests whose answer the transport refuses arrive at most once (their server transaction does not outlive the answer, a copy would be a new request with a CSeq not above the last one handed on)",
             "a guard drop inside receive is tied to a request that arrives exactly once and that the reference model hands on; scripts with such drops have no back-to-back arrivals (the interleaving of overlapping deliveries is the recorded open finding)",
         ],
-        explanation: "permutations: every arrival order of n consecutive requests, n<=4 (thorough: n<=5 both roles, n=6 UAS) x both roles x start in {1, crossing 2^31, last=u32::MAX}, plus INVITE CSeq = u32::MAX; guard_drop: every permutation n<=3 (thorough 4) x every drop position x observer x roles; concurrent: every permutation n<=3 (thorough 4) arriving back to back in one or two bursts with a usage that yields; self_drop: every permutation n<=3 (thorough 4) x the taking usage ends itself on each request; usage_drop: rosters {L, LL, LT, LLL, LLT} x every (actor, target) pair x early/late x every permutation n<=3 (thorough 4) x every request the drop can be tied to x both roles, plus every position of an application-side drop of each looking usage's guard; unwanted: every permutation n=2..3 (thorough 4) x both roles x who is left {L, LL, nobody (taker ended), L (taker behind it ended)} x every request j x {answer to j refused by the transport, j = re-INVITE never ACKed, j = re-INVITE ACKed at once, j = re-INVITE and answer refused}; held_long: every permutation n=2..3 (thorough 4) x both roles x roster {T / LT legacy, L, LT} x (one wait of {31 s, 33 s, 70 s, 10 min} at every position between two neighbouring arrivals, or 17 s between every two neighbouring arrivals without / with a retransmission of the first arrival); random: sampled scripts with duplicates, near-misses, gaps left open, ACKs, guard drop of any usage, bursts, rosters, one or two in-receive drops, one case in four with a re-INVITE (ACKed / never ACKed), one in four with one or two refused answers (three in four of those with a roster of looking usages only), three in eight with one or two long waits (5 s .. 1 h) at random positions",
+        explanation: "permutations: every arrival order of n consecutive requests, n<=4 (thorough: n<=5 both roles, n=6 UAS) x both roles x start in {1, crossing 2^31, last=u32::MAX}, plus INVITE CSeq = u32::MAX; guard_drop: every permutation n<=3 (thorough 4) x every drop position x observer x roles; concurrent: every permutation n<=3 (thorough 4) arriving back to back in one or two bursts with a usage that yields; self_drop: every permutation n<=3 (thorough 4) x the taking usage ends itself on each request; usage_drop: rosters {L, LL, LT, LLL, LLT} x every (actor, target) pair x early/late x every permutation n<=3 (thorough 4) x every request the drop can be tied to x both roles, plus every position of an application-side drop of each looking usage's guard; unwanted: every permutation n=2..3 (thorough 4) x both roles x who is left {L, LL, nobody (taker ended), L (taker behind it ended)} x every request j x {answer to j refused by the transport, j = re-INVITE never ACKed, j = re-INVITE ACKed at once, j = re-INVITE and answer refused}; held_long: every permutation n=2..3 (thorough 4) x both roles x roster {T / LT legacy, L, LT} x (one wait of {31 s, 33 s, 70 s, 10 min} at every position between two neighbouring arrivals, or 17 s between every two neighbouring arrivals without / with a retransmission of the first arrival); wide_backlog: w in {63, 64, 65, 66, 100, 200} (thorough also 31..33, 127..129, 255) requests held behind one missing number, arriving ascending / descending / riffled, both roles, then the gap is filled; random: sampled scripts with duplicates, near-misses, gaps left open, ACKs, guard drop of any usage, bursts, rosters, one or two in-receive drops, one case in four with a re-INVITE (ACKed / never ACKed), one in four with one or two refused answers (three in four of those with a roster of looking usages only), three in eight with one or two long waits (5 s .. 1 h) at random positions",
         subs: vec![
             enum_sub("permutations", perm_cases, check),
             enum_sub("guard_drop", drop_cases, check),
@@ -2345,6 +2369,7 @@ pub fn property() -> Property {
             enum_sub("usage_drop", usage_drop_cases, check),
             enum_sub("unwanted", unwanted_cases, check),
             enum_sub("held_long", held_long_cases, check),
+            enum_sub("wide_backlog", wide_backlog_cases, check),
             prop_sub("random", strategy, 3000, 40000, check),
         ],
     }
